@@ -3,8 +3,9 @@
 (* Trace specification for C15: TLC judges every line that the Go command  *)
 (* harness/cmd/amount recorded from the implementation.                    *)
 (*                                                                         *)
-(* Line 1 is the header (the constants the linked mass-core really uses;   *)
-(* they must be the ones of Amount.tla).  Every other line is one case:    *)
+(* Line 1 is the header [k = "hdr", max, unit, cliav]: the constants the   *)
+(* linked mass-core really uses (they must be the ones of Amount.tla) and  *)
+(* whether the CLI parser is linked.  Every other line is one case:        *)
 (*   parse  in (bytes), api / cli = [ok, val (digits), panic]              *)
 (*   fmt    neg, d (digits of |m|), fapi / fmw = [ok, out (bytes), panic], *)
 (*          rt = api parser applied to fapi.out (hasrt says whether)       *)
@@ -46,6 +47,7 @@ JudgeParse(n, l) ==
     {Dev(n, "api.StringToAmount", cl, Why(l.in), IF cl = "must-reject-accepted" THEN KnownFor("api", l.in, l.api) ELSE "")
         : cl \in ParseDeviations(l.in, l.api)}
     \cup
+    IF ~Trace[1].cliav THEN {} ELSE      \* CLI parser not linked into this build: the cli field only repeats api
     {Dev(n, "cli.stringToAmount", cl, Why(IF CliPlain(l.in) THEN l.in ELSE CliCore(l.in)),
          IF cl = "must-reject-accepted"
          THEN KnownFor("cli", IF CliPlain(l.in) THEN l.in ELSE CliCore(l.in), l.cli) ELSE "")
